@@ -75,6 +75,12 @@ def run_direct(chk, n_cfg):
                     e = Boom(b[1])
                     e.code = b[1]
                     raise e
+            if (scripted and i == 1) or rng.random() < 0.15:
+                # the application replaces the public listener lists by new list objects (how a listener is unregistered in this
+                # version: conn.packet_listeners = [l for l in conn.packet_listeners if ...]); later registrations go to the new lists
+                for attr in ('packet_listeners', 'early_packet_listeners', 'outgoing_packet_listeners', 'early_outgoing_packet_listeners'):
+                    if hasattr(conn, attr):
+                        setattr(conn, attr, list(getattr(conn, attr)))
             if reuse:
                 shared[1](cb)
             elif (scripted and i < 3) or rng.random() < 0.3:
